@@ -3,9 +3,11 @@ package sched
 import (
 	"context"
 	"fmt"
+	"os"
 	"sort"
 	"strconv"
 	"strings"
+	"sync"
 	"testing"
 	"testing/synctest"
 	"time"
@@ -154,8 +156,62 @@ func (r *run) hints(assignedNow map[string]string, an string) string {
 
 // window lets the implementation run until every goroutine is blocked, then feeds
 // the model the primary line and all enabled continuations, and compares.
+// watchdog state: the op lines applied so far in the current history and the (real)
+// time of the last completed segment.  A scheduler call that spins or deadlocks makes
+// synctest.Wait() block forever; the watchdog goroutine (real time, outside the bubble)
+// then reports the history as a finding instead of letting the run time out.
+var (
+	watchMu    sync.Mutex
+	watchLines []string
+	watchTick  int64 // progress counter (time.Now() inside a synctest bubble is virtual, so no timestamps)
+	watchOn    bool
+)
+
+func watchNote(line string) {
+	watchMu.Lock()
+	if line != "" {
+		watchLines = append(watchLines, line)
+	}
+	watchTick++
+	watchMu.Unlock()
+}
+
+func watchReset() {
+	watchMu.Lock()
+	watchLines = nil
+	watchTick++
+	watchMu.Unlock()
+}
+
+func startWatchdog(res *hx.Result, o hx.Opts) {
+	watchOn = true
+	watchReset()
+	go func() {
+		lastTick, lastChange := int64(-1), time.Now()
+		for {
+			time.Sleep(2 * time.Second)
+			watchMu.Lock()
+			if watchTick != lastTick {
+				lastTick, lastChange = watchTick, time.Now()
+			}
+			stuck := time.Since(lastChange) > 120*time.Second
+			lines := append([]string(nil), watchLines...)
+			watchMu.Unlock()
+			if stuck {
+				prop := o.Prop
+				res.Report(hx.Finding{Kind: "violation", Property: prop, Name: "C06.every_sleeper_wakes / C14: every call terminates",
+					What:    "a scheduler call did not return and no goroutine made progress for 120 s (spinning or deadlocked under bq.lock) after the last op of this history",
+					History: lines, Sig: hx.Sig(prop, "violation", "hang")})
+				res.Write(o)
+				os.Exit(0)
+			}
+		}
+	}()
+}
+
 func (r *run) window(primary string, an string) {
 	synctest.Wait()
+	watchNote("")
 	r.steps++
 	w := r.w
 	if w.panicked != "" {
@@ -294,6 +350,7 @@ func firstDiff(model, impl string) string {
 
 // apply executes one abstract op line: "<dt> <kind> args... [sel=.. bg=.. retry=..]".
 func (r *run) apply(line string) {
+	watchNote(line)
 	w := r.w
 	var args, kv []string
 	for _, f := range strings.Fields(line) {
@@ -595,6 +652,7 @@ func (r *run) endBubble() {
 }
 
 func runHistory(t *testing.T, drv *hx.Driver, lines []string, quiesce bool) *run {
+	watchReset()
 	r := &run{drv: drv, prev: map[string]string{}, flags: map[string]bool{}, streams: map[int]*streamMon{}, doneTask: map[int]string{}}
 	synctest.Test(t, func(t *testing.T) {
 		r.w = newWorld(defaultCfg)
@@ -620,6 +678,7 @@ func runHistory(t *testing.T, drv *hx.Driver, lines []string, quiesce bool) *run
 
 // synctest_run executes body inside a fresh bubble with a fresh scheduler and model.
 func synctest_run(t *testing.T, r *run, body func()) {
+	watchReset()
 	synctest.Test(t, func(t *testing.T) {
 		r.w = newWorld(defaultCfg)
 		c := defaultCfg
